@@ -355,6 +355,17 @@ impl Report {
             );
         }
         let nviol = unattributed.len();
+        if std::env::var_os("VCHECK_DUMP_KNOWN").is_some() {
+            // maintenance aid: what each finding covered in this run (to review a rule's breadth)
+            let mut txt = String::new();
+            for (id, (_, fs)) in &by_finding {
+                for f in fs {
+                    txt.push_str(&json!({"finding": id, "oracle": f.oracle, "tags": f.tags, "case": f.case, "expected": f.expected, "observed": f.observed}).to_string());
+                    txt.push('\n');
+                }
+            }
+            let _ = std::fs::write(replay_dir.join(format!("{}-{}-known.jsonl", self.property, self.tier.name())), txt);
+        }
         if std::env::var_os("VCHECK_DUMP").is_some() {
             let mut txt = String::new();
             for f in &unattributed {
